@@ -131,6 +131,10 @@ def run_case(res, case, attempt=0):
                     # requested from this very entity), then refuses
                     with self.request_association(extra['directory']) as lookup:
                         extra['lookup_status'] = int(lookup.get_scu(svc.VERIFICATION)(1))
+                if k % 2:
+                    # the documented parameter names, given as keywords
+                    raise exceptions.AssociationRejectedError(result=triple[0], source=triple[1],
+                                                              diagnostic=triple[2])
                 raise exceptions.AssociationRejectedError(*triple)
 
         def on_receive_store(self, context, ds):
